@@ -8,6 +8,7 @@ import OSq.Model.Mapping
 import OSq.Model.Text
 import OSq.Model.Sched
 import OSq.Model.Front
+import OSq.Model.CircuitEq
 /-
   OSq.Driver — line protocol.  One self-contained request per input line, one reply line per
   request.  Floats cross as IEEE-754 bit patterns (16 hex digits), strings as `x<hex of utf-8>`.
@@ -285,6 +286,9 @@ def handle : P String := do
   | "gateeq" => do
       let a ← rGate; let b ← rGate
       pure (wExcept (fun (x : Bool) => if x then "1" else "0") (gateEq atol a b))
+  | "circuiteq" => do
+      let a ← rCircuit; let b ← rCircuit
+      pure (wExcept (fun (x : Bool) => if x then "1" else "0") (circuitEq atol a b))
   | "compareidx" => do
       let idx ← rMany rInt
       let a ← rGate; let b ← rGate
